@@ -268,6 +268,34 @@ def without_member(case, i):
         if case.get(k) is not None:
             c[k] = case[k][:i] + case[k][i + 1:]
     c["perm"] = None
+    c["split"] = None
+    return c
+
+
+def without_zero_weight_members(case):
+    ws = weights_of(case)
+    if ws is None or all(w != 0 for w in ws):
+        return None
+    c = case
+    for i in reversed([i for i, w in enumerate(ws) if w == 0]):
+        c = without_member(c, i)
+    return c
+
+
+def split_member(case):
+    """Member j (case['split']) twice, with 1/4 and 3/4 of its weight (exact in binary64)."""
+    j = case.get("split")
+    if j is None or j >= case["n"]:
+        return None
+    ws = weights_of(case) or [1.0] * case["n"]
+    c = dict(case)
+    c["n"] = case["n"] + 1
+    for k in ("vals", "vals2", "mask"):
+        if case.get(k) is not None:
+            c[k] = case[k][:j + 1] + [case[k][j]] + case[k][j + 1:]
+    c["weights"] = ws[:j] + [ws[j] * 0.25, ws[j] * 0.75] + ws[j + 1:]
+    c["perm"] = None
+    c["split"] = None
     return c
 
 
@@ -290,7 +318,7 @@ def base_result(case, extra_desc=()):
     k = wkind_of(ws)
     nt = case["n"] >= 2 and (case["mask"] is not None or k.split("+")[0] in ("normalised", "unnormalised") or "zeros" in k)
     return dict(ok=True, kind="oracle", clause="", nontrivial=nt,
-                sig=dict(agg=case["agg"], wkind=k, masked=case["mask"] is not None),
+                sig=dict(agg=case["agg"], masked=case["mask"] is not None),
                 desc=["n=%d" % case["n"], "w=" + k, "masked=%s" % (case["mask"] is not None), "dims=%d" % len(case["shape"]),
                       "num=" + case.get("num", "float")] + list(extra_desc))
 
@@ -430,6 +458,12 @@ def metamorphic(case, imp, impl, tols, m, name):
     part = uniform_partner(case)
     if part is not None:
         pair("uniform_is_none", part, tols)
+    zc = without_zero_weight_members(case)
+    if zc is not None:
+        pair("zero_weight_member_ignored", zc, tols)
+    sc = split_member(case)
+    if sc is not None:
+        pair("member_split", sc, tols)
     pc = permuted(case)
     if pc is not None:
         pair("perm_invariant", pc, tols)
@@ -471,58 +505,72 @@ def impl_mn(case, junk=False):
     return dict(loc=loc, total=sq(sc[0]), ale=sq(sc[1]), epi=sq(sc[2]))
 
 
-def check_mn_body(case, res):
-    m = model()
-    n = ncells(case["shape"])
-    imp = impl_mn(case)
+def mn_model(case, m):
     cells, s = scalar_cells(case, ("vals", "vals2"))
     out = m.call(F_MN, [enc_weights(case), cells])
-    names = ["loc", "total", "ale", "epi", "epi_today"]
     mod = {}
-    for j, k in enumerate(names):
+    for j, k in enumerate(["loc", "total", "ale", "epi", "epi_today"]):
         d = s if k == "loc" else s * s
         mod[k] = [None if (o := dec_opt(r[j])) is None else o / d for r in out]
     mag1 = magnitudes(case, lambda i, c: abs(fr(case["vals"][i][c])))
     mag2 = magnitudes(case, lambda i, c: fr(case["vals"][i][c]) ** 2 + fr(case["vals2"][i][c]) ** 2)
-    tol1 = [RTOL * (1 + g) for g in mag1]
-    tol2 = [RTOL * (1 + g) for g in mag2]
+    return mod, [RTOL * (1 + g) for g in mag1], [RTOL * (1 + g) for g in mag2]
+
+
+def same(a, b, tols):
+    try:
+        compare("x", a, b, tols, [False] * len(a))
+        return True
+    except Fail:
+        return False
+
+
+def check_mn_body(case, res):
+    m = model()
+    n = ncells(case["shape"])
+    imp = impl_mn(case)
+    mod, tol1, tol2 = mn_model(case, m)
     ex = exact_cells(case)
     no = [False] * n
 
-    def today():
-        """does the implementation's epistemic variance follow the pre-fix model (weights ignored)?"""
-        try:
-            compare("x", imp["epi"], mod["epi_today"], tol2, no)
-            return True
-        except Fail:
-            return False
+    def follows_today(cs, im):
+        """do these epistemic variances follow the pre-fix model (weights ignored) and not the repaired one?"""
+        md, _, t2 = (mod, tol1, tol2) if cs is case else mn_model(cs, m)
+        return same(im["epi"], md["epi_today"], t2) and not same(im["epi"], md["epi"], t2)
 
-    compare("mn:loc", imp["loc"], mod["loc"], tol1, ex)
+    def classify(f):
+        """F18: an epistemic variance that follows mn_epi_today; F27: NaN (np) / masked (np.ma) total scale where the
+        true variance is within rounding of zero (cancellation)."""
+        extra = {}
+        c = f.detail.get("cell") if isinstance(f.detail, dict) else None
+        if "total" in f.clause and f.clause.rsplit(":", 1)[-1] in ("nan", "mask") and c is not None and c < n \
+                and mod["total"][c] is not None and mod["total"][c] <= tol2[c]:
+            extra["cancellation"] = True
+            f.kind = "oracle"
+        if "epi" in f.clause or f.clause == "mn:variance_split":
+            partner = getattr(f, "partner", None)
+            extra["today"] = bool(follows_today(case, imp) or (partner is not None and follows_today(*partner)))
+        f.extra = dict(f.extra, **extra)
+
     try:
+        compare("mn:loc", imp["loc"], mod["loc"], tol1, ex)
         compare("mn:total_var", imp["total"], mod["total"], tol2, no)
-    except Fail as f:
-        if f.clause.endswith(":nan"):
-            # sqrt of a variance that cancellation made negative: the true variance is within rounding of zero
-            c = f.detail["cell"]
-            f.extra = dict(cancellation=bool(mod["total"][c] <= tol2[c]))
-        raise
-    compare("mn:ale_var", imp["ale"], mod["ale"], tol2, no)
-    # --- the property clause: total variance = aleatoric + epistemic, decided by ok_variance_split ---
-    by_tol = {}
-    for c in range(n):
-        if imp["total"][c] is None:
-            continue
-        by_tol.setdefault(3 * tol2[c], []).append((c, imp["total"][c], imp["ale"][c], imp["epi"][c]))
-    for t, lst in by_tol.items():
-        for ok, (c, a, b, e) in zip(m.call(F_VSPLIT, [qp(t), [[qp(a), qp(b), qp(e)] for _, a, b, e in lst]]), lst):
-            if not ok:
-                raise Fail("oracle", "mn:variance_split", dict(cell=c, total=float(a), aleatoric=float(b), epistemic=float(e), sum=float(b + e)), dict(today=today()))
-    try:
+        compare("mn:ale_var", imp["ale"], mod["ale"], tol2, no)
+        # --- the property clause: total variance = aleatoric + epistemic, decided by ok_variance_split ---
+        by_tol = {}
+        for c in range(n):
+            if imp["total"][c] is None or imp["epi"][c] is None or imp["ale"][c] is None:
+                continue
+            by_tol.setdefault(3 * tol2[c], []).append((c, imp["total"][c], imp["ale"][c], imp["epi"][c]))
+        for t, lst in by_tol.items():
+            for ok, (c, a, b, e) in zip(m.call(F_VSPLIT, [qp(t), [[qp(a), qp(b), qp(e)] for _, a, b, e in lst]]), lst):
+                if not ok:
+                    raise Fail("oracle", "mn:variance_split", dict(cell=c, total=float(a), aleatoric=float(b), epistemic=float(e), sum=float(b + e)))
         compare("mn:epi_var", imp["epi"], mod["epi"], tol2, no)
+        metamorphic(case, imp, impl_mn, dict(loc=tol1, total=tol2, ale=tol2, epi=tol2), m, "mn")
     except Fail as f:
-        f.extra = dict(today=today())
+        classify(f)
         raise
-    metamorphic(case, imp, impl_mn, dict(loc=tol1, total=tol2, ale=tol2, epi=tol2), m, "mn")
 
 
 check_mn = guarded(check_mn_body)
@@ -843,12 +891,6 @@ def gen_mask(rng, n, cells):
     return mask
 
 
-def fix_zero_remaining(case):
-    """Keep the case inside the property's quantifier: the remaining weight sum of a cell is either > 0 or the
-    cell is fully masked (a cell whose only unmasked members have weight 0 is also produced on purpose, rarely)."""
-    return case
-
-
 def scalar_value(rng, dyadic, spread):
     if dyadic:
         return rng.randint(-40, 40) / 8.0
@@ -872,7 +914,7 @@ def gen_scalar(agg, count):
                      for _ in range(cells)] for _ in range(n)]
             case = dict(agg=agg, n=n, shape=shape, vals=vals, weights=ws, num="dyadic" if dyadic else "float",
                         mask=gen_mask(rng, n, cells) if rng.random() < 0.4 else None,
-                        perm=rng.sample(range(n), n), uniform_c=rng.choice([1.0, 0.5, 3.0, 1.0 / n]))
+                        perm=rng.sample(range(n), n), uniform_c=rng.choice([1.0, 0.5, 3.0, 1.0 / n]), split=rng.randrange(n))
             if agg == "mn" and not dyadic and j % 40 == 39:
                 # degenerate: the members agree and are (almost) certain - the mixture variance is ~ 0
                 case["vals"] = [[base * (1 + c) for c in range(cells)] for _ in range(n)]
@@ -937,7 +979,7 @@ def gen_rows(agg, count):
                 vals = [vals[0] if rng.random() < 0.7 else v for v in vals]
             yield dict(agg=agg, n=n, shape=shape, K=K, vals=vals, weights=ws, num="dyadic" if dyadic else "float",
                        mask=gen_mask(rng, n, cells) if rng.random() < 0.4 else None,
-                       perm=rng.sample(range(n), n), uniform_c=rng.choice([1.0, 0.5, 3.0, 1.0 / n]))
+                       perm=rng.sample(range(n), n), uniform_c=rng.choice([1.0, 0.5, 3.0, 1.0 / n]), split=rng.randrange(n))
     return gen
 
 
@@ -967,6 +1009,8 @@ def shrink(case):
         yield dict(case, mask=None)
     if case.get("perm") and case["perm"] != list(range(n)):
         yield dict(case, perm=None)
+    if case.get("split") is not None:
+        yield dict(case, split=None)
     if case["weights"] is not None:
         ws = case["weights"]
         simple = [float(round(w * 4) / 4) for w in ws]
